@@ -190,14 +190,16 @@ func NewHubFromViper(v *viper.Viper) (*Hub, error) { //nolint:funlen,gocognit
 	if d := v.GetDuration("write_timeout"); d != 600*time.Second {
 		options = append(options, WithWriteTimeout(d))
 	}
-	if d := v.GetDuration("dispatch_timeout"); d != 0 {
-		options = append(options, WithDispatchTimeout(d))
+	// 0s disables the dispatch timeout, it must not be replaced by the default value
+	if v.IsSet("dispatch_timeout") {
+		options = append(options, WithDispatchTimeout(v.GetDuration("dispatch_timeout")))
 	}
 	if v.GetBool("subscriptions") {
 		options = append(options, WithSubscriptions())
 	}
-	if d := v.GetDuration("heartbeat_interval"); d != 0 {
-		options = append(options, WithHeartbeat(d))
+	// 0s disables the heartbeat, it must not be replaced by the default value
+	if v.IsSet("heartbeat_interval") {
+		options = append(options, WithHeartbeat(v.GetDuration("heartbeat_interval")))
 	}
 	if k = v.GetString("publisher_jwt_key"); k == "" {
 		k = v.GetString("jwt_key")
